@@ -1011,6 +1011,16 @@ fn gen_posix(c: &mut Ctx, ext: bool) -> String {
     format!("{}{}{}{},{}{},{}{}", name(c, false), so_s, name(c, true), do_s, d1, t1, d2, t2)
 }
 
+/// does a rule text use the RFC 8536 extensions (a signed rule time, or rule hours beyond 24)?
+fn posix_uses_extensions(rule: &str) -> bool {
+    rule.split(',').skip(1).any(|part| match part.split_once('/') {
+        Some((_, t)) => {
+            t.starts_with('-') || t.starts_with('+') || t.split(':').next().and_then(|h| h.parse::<u32>().ok()).map_or(true, |h| h > 24)
+        }
+        None => false,
+    })
+}
+
 /// Independent reading of the standard / daylight offsets a POSIX TZ string states, in seconds EAST of UT
 /// (POSIX writes them west-positive).  `None` when the string is not of the plain shape this reader knows.
 fn ref_posix_offsets(rule: &str) -> Option<(i64, Option<i64>)> {
@@ -1402,7 +1412,9 @@ pub fn run(c: &mut Ctx) {
         ("nsZone2", &[(3600, true, "BBB"), (0, false, "AAA"), (7200, true, "CCC")], &[(1_000_000, 1), (1_000_600, 2)], ""),
         // the trivial zone shapes: one type and nothing else; no transitions + fixed rule; no transitions + rule
         ("one type", &[(3600, false, "AAA")], &[], ""),
-        ("one type, far east", &[(93600, false, "AAA")], &[], ""),
+        ("one type, 23:59:59 east", &[(86399, false, "AAA")], &[], ""),
+        ("one type, 23:59:59 west", &[(-86399, false, "AAA")], &[], ""),
+        ("two types, the unused one 23:59:59 east", &[(0, false, "AAA"), (86399, true, "BBB")], &[], ""),
         ("fixed rule only", &[(7200, false, "FIX")], &[], "FIX-2"),
         ("rule only", &[(-18000, false, "EST")], &[], "EST5EDT,M3.2.0,M11.1.0"),
         // `Props.C05.lonZone`: an offset-preserving transition (London 1968-10-27), no excepted second there
@@ -1421,6 +1433,26 @@ pub fn run(c: &mut Ctx) {
             _ => c.fail("from_tzif rejected or panicked on a directed synthetic zone", name),
         }
     }
+    // F32 (repaired): a local time type 24 hours or more from UTC — used or not — is invalid zone data
+    let refused: &[(&str, &[(i32, bool, &str)], &[(i64, u8)], &str)] = &[
+        ("one type, 24:00:00 east", &[(86400, false, "AAA")], &[], ""),
+        ("one type, 24:00:00 west", &[(-86400, false, "AAA")], &[], ""),
+        ("one type, 24:00:01 east", &[(86401, false, "AAA")], &[], ""),
+        ("one type, 24:00:01 west", &[(-86401, false, "AAA")], &[], ""),
+        ("one type, far east", &[(93600, false, "AAA")], &[], ""),
+        ("one type, i32::MAX", &[(i32::MAX, false, "AAA")], &[], ""),
+        ("one type, i32::MIN", &[(i32::MIN, false, "AAA")], &[], ""),
+        ("two types, the unused one 24:00:00 east", &[(0, false, "AAA"), (86400, true, "BBB")], &[], ""),
+        ("a transition to 25:00:00 west", &[(0, false, "AAA"), (-90000, true, "BBB")], &[(1_000_000, 1)], ""),
+    ];
+    for (name, types, trans, footer) in refused {
+        let bytes = write_tzif(b'2', types, trans, footer);
+        match guard(|| vt::from_tzif(&bytes)) {
+            Ok(Ok(z)) => c.fail("a TZif file with a UTC offset of 24 hours or more was accepted (F32)", &format!("{name} -> {}", z.dump())),
+            Ok(Err(_)) => c.count("directed.refused: offset of 24 h or more"),
+            Err(()) => c.fail("from_tzif panicked on a directed synthetic zone", name),
+        }
+    }
     // ---- B. synthetic TZif files from random zone models
     let nsyn = c.n(300, 2000);
     let (mut syn_glue_big, mut syn_glue_small) = (0usize, 0usize);
@@ -1434,6 +1466,9 @@ pub fn run(c: &mut Ctx) {
             continue;
         };
         match guard(|| vt::from_tzif(&bytes)) {
+            Ok(Ok(z)) if written.types.iter().any(|t| (t.0 as i64).abs() >= 86400) => {
+                c.fail("a TZif file with a UTC offset of 24 hours or more was accepted (F32)", &format!("syn [{label}] -> {}", short(&z.dump())));
+            }
             Ok(Ok(z)) => {
                 made += 1;
                 let zc = mk("syn", label, z);
@@ -1490,11 +1525,25 @@ pub fn run(c: &mut Ctx) {
         // inside the quantifier but outside `RuleYearly`: the two transitions closer than twice the offset
         // jump; the start/end order flipping from year to year (judged under the prefix PFX_RULE)
         "AAA0BBB-2,M6.1.0/2,M6.1.0/3", "AAA0BBB-1,M6.2.0/2,J162/2", "AAA0BBB-1,J162/2,M6.2.0/2",
+        // F32 (repaired): stated or defaulted offsets of exactly 86399 / 86400 / 86401 s, either sign —
+        // below 24 h the zone must be read, from 24 h on it must be refused
+        "AAA23:59:59", "AAA-23:59:59", "AAA24", "AAA-24", "AAA24:00:01", "AAA-24:00:01", "AAA24:59:59", "XXX-24:30",
+        "AAA5BBB23:59:59,M3.2.0,M11.1.0", "AAA5BBB-23:59:59,M3.2.0,M11.1.0", "AAA5BBB24,M3.2.0,M11.1.0",
+        "AAA5BBB-24,M3.2.0,M11.1.0", "AAA5BBB-24:00:01,M3.2.0,M11.1.0", "AAA24BBB5,M3.2.0,M11.1.0",
+        "AAA-22:59:59BBB,J1,J365", "AAA-23BBB,J1,J365", "AAA-23:00:01BBB,J1,J365",
     ];
     let nposix = c.n(600, 5000);
     for i in 0..nposix {
         let rule = if i < fixed_rules.len() { fixed_rules[i].to_string() } else { gen_posix(c, false) };
+        // F32 (repaired): the offsets the string states, read independently; 24 hours or more in
+        // magnitude = invalid zone data (`Local` hands offsets out as `FixedOffset`)
+        let stated = ref_posix_offsets(&rule);
+        let over = stated.map(|(s, d)| s.abs() >= 86400 || d.map_or(false, |d| d.abs() >= 86400));
         match guard(|| vt::from_env_tz(Some(&rule))) {
+            Ok(Ok(z)) if over == Some(true) => {
+                c.fail("a TZ value stating a UTC offset of 24 hours or more was accepted (F32)",
+                       &format!("TZ={rule}: states {stated:?} (seconds east), read as {}", z.dump()));
+            }
             Ok(Ok(z)) => {
                 let zc = mk("posix", rule.clone(), z);
                 // the offsets the string states, read by an independent reader (POSIX: west positive,
@@ -1520,6 +1569,12 @@ pub fn run(c: &mut Ctx) {
                     glue.push((rule.clone(), String::new()));
                 }
             }
+            // (a rule time with a sign or beyond 24 h is an RFC 8536 extension, which a TZ value may not use)
+            Ok(Err(e)) if over == Some(false) && !posix_uses_extensions(&rule) => {
+                c.fail("a well-formed POSIX TZ value whose offsets are below 24 hours was refused",
+                       &format!("TZ={rule}: states {stated:?} (seconds east), error {e}"));
+            }
+            Ok(Err(_)) if over == Some(true) => c.count("posix.refused: offset of 24 h or more"),
             Ok(Err(e)) => c.count(&format!("posix.rejected.{}", e.split('(').next().unwrap_or("?"))),
             Err(()) => c.fail("from_env_tz panicked on a POSIX rule", &rule),
         }
